@@ -13,7 +13,11 @@
   * `reduce64_total`  : unconditional (`trunc` starts at 0 there)
   * `reduce192_total_triple`, `reduce128_total_triple`, `reduce256_total_triple`,
     `reduce64_total_triple` : the `@[spec]` Hoare-triple forms
-  The hypothesis `sig ≠ 0 ∨ trunc ≠ -1` is necessary: see `round_zero_stuck_shift` in `TotalRound.lean`
+  * `reduce192_total_nodown`, `reduce192_total_modes_sign`, `reduce192_total_modes`,
+    `reduce192_total_modes_triple` (not `@[spec]`) and the same for `reduce128`, `reduce256` :
+    totality for ALL `sig exp trunc` when `rm ∉ {2,4,5}` (sign-aware: `rm ≠ 2 ∧ ¬(rm = 5 ∧ neg) ∧
+    ¬(rm = 4 ∧ ¬neg)`), in particular for the default mode `ToNearestEven` and invalid mode bytes
+  For the other modes the hypothesis `sig ≠ 0 ∨ trunc ≠ -1` is necessary: see `round_zero_stuck_shift` in `TotalRound.lean`
   and `reduce192_zero_stuck` below (`reduce192 ToZero neg 0 exp (-1)` enters the stuck state of `round`).
 -/
 import D128.Proofs.TotalRound
@@ -394,6 +398,193 @@ theorem reduce64_total (rm : UInt8) (neg : Bool) (sig : UInt64) (exp : Int16) :
 @[spec] theorem reduce64_total_triple (rm : UInt8) (neg : Bool) (sig : UInt64) (exp : Int16) :
     ⦃⌜True⌝⦄ Gen.RoundingMode.reduce64 rm neg sig exp ⦃⇓ _ => ⌜True⌝⦄ :=
   triple_of_total (fun _ => reduce64_total rm neg sig exp)
+
+/-! ## mode-restricted unconditional totality (no hypothesis on `sig`, `exp`, `trunc`)
+
+  For mode/sign combinations that never decide `adjust = -1` (`NoDown`: every mode byte except
+  `ToZero` = 2, `ToPositiveInf` = 5 on negative values, `ToNegativeInf` = 4 on non-negative values) the
+  `sig - 1` wrap in `round` is unreachable, and all phases of `reduce*` terminate unconditionally. -/
+
+/-- a `while` loop whose body never panics and decreases a variant on every continuing pass -/
+theorem loop_ok {β : Type} (f : Unit → β → Go.GoM (ForInStep β)) (μ : β → Nat)
+    (step : ∀ b, (∃ b', f () b = .ok (.yield b') ∧ μ b' < μ b) ∨ (∃ b', f () b = .ok (.done b')))
+    (b : β) : ∃ b', forIn (m := Go.GoM) Lean.Loop.mk b f = .ok b' := by
+  obtain ⟨b', e, _⟩ := loop_inv f (fun _ => True) (fun _ => True) μ
+    (fun b _ => by
+      rcases step b with ⟨b', e, hlt⟩ | ⟨b', e⟩
+      · exact Or.inl ⟨b', e, trivial, hlt⟩
+      · exact Or.inr ⟨b', e, trivial⟩) b trivial
+  exact ⟨b', e⟩
+
+theorem reduceTail_total_nodown (rm : UInt8) (neg : Bool) (sig : U128) (exp : Int16) (trunc : Int8)
+    (digit : UInt64) (hm : NoDown rm neg) :
+    ∃ r, reduceTail rm neg sig exp trunc digit = .ok r := by
+  obtain ⟨s1, e1⟩ := loop_ok dropBody (fun b => b.1.toNat) dropBody_total (sig, exp, trunc, digit)
+  obtain ⟨s2, e2⟩ := loop_ok subBody (fun b => (-b.2.1.toInt).toNat) subBody_total
+    (s1.1, s1.2.1, s1.2.2.1, s1.2.2.2)
+  obtain ⟨s3, e3, _⟩ := upLoop_total (s2.1, s2.2.1)
+  unfold reduceTail dropLoop subLoop
+  rw [e1, ok_bind, e2, ok_bind, e3, ok_bind]
+  exact round_total_nodown _ _ _ _ _ _ _ hm
+
+theorem ladder128_ok {α : Type} (k : U128 → Int16 → Int8 → UInt64 → Go.GoM α) (sig : U128)
+    (exp : Int16) (trunc : Int8) (hk : ∀ s' e' t' d', ∃ r, k s' e' t' d' = .ok r) :
+    ∃ r, ladder128 k sig exp trunc = .ok r := by
+  unfold ladder128
+  by_cases h4 : decide (sig.w1 > 703687441776640000) = true
+  · obtain ⟨q, r, e, hq, hr⟩ := U128_div10000_spec sig
+    simp only [h4, if_true, e, ok_bind]
+    rw [ladder_branch k q r (exp + 4) trunc 1000]
+    apply hk
+  · by_cases h3 : decide (sig.w1 > 70368744177664000) = true
+    · obtain ⟨q, r, e, hq, hr⟩ := U128_div1000_spec sig
+      simp only [h4, h3, if_true, e, ok_bind]
+      rw [ladder_branch k q r (exp + 3) trunc 100]
+      apply hk
+    · by_cases h2 : decide (sig.w1 > 7036874417766400) = true
+      · obtain ⟨q, r, e, hq, hr⟩ := U128_div100_spec sig
+        simp only [h4, h3, h2, if_true, e, ok_bind]
+        rw [ladder_branch k q r (exp + 2) trunc 10]
+        apply hk
+      · simp only [h4, h3, h2]
+        exact hk _ _ _ _
+
+theorem step192_ok {α : Type} (k : U192 → Int16 → Int8 → Go.GoM α) (sig : U192) (exp : Int16)
+    (trunc : Int8) (hk : ∀ n' e' t', ∃ r, k n' e' t' = .ok r) :
+    ∃ r, step192 k sig exp trunc = .ok r := by
+  unfold step192
+  by_cases hc : decide (sig.w2 > 10000) = true
+  · obtain ⟨q, r, e, hq, hr⟩ := D128.Proofs.WordsWide.U192_div1e8_eq sig
+    simp only [hc, if_true, e, ok_bind]
+    by_cases hd : (r != 0) = true
+    · simp only [hd, if_true]
+      exact hk _ _ _
+    · simp only [hd, Bool.false_eq_true, if_false]
+      exact hk _ _ _
+  · simp only [hc]
+    exact hk _ _ _
+
+theorem wide256Body_total (b : W256) :
+    (∃ b', wide256Body () b = .ok (.yield b') ∧ b'.1.toNat < b.1.toNat) ∨
+    (∃ b', wide256Body () b = .ok (.done b')) := by
+  obtain ⟨q, r, e, hq, hr⟩ := D128.Proofs.WordsWide.U256_div1e19_eq b.1
+  have hw0 := b.1.w0.toNat_lt
+  have hw1 := b.1.w1.toNat_lt
+  have hw2 := b.1.w2.toNat_lt
+  by_cases hc : decide (b.1.w3 > 0) = true
+  · left
+    have hgt : 2 ^ 192 ≤ b.1.toNat := by
+      rw [decide_eq_true_eq, gt_iff_lt, UInt64.lt_iff_toNat_lt] at hc
+      have hc' : 0 < b.1.w3.toNat := hc
+      simp only [U256.toNat]; omega
+    by_cases hd : (r != 0) = true
+    · exact ⟨_, by simp only [wide256Body, hc, if_true, e, ok_bind, hd]; rfl,
+        by show q.toNat < _; omega⟩
+    · exact ⟨_, by simp only [wide256Body, hc, if_true, e, ok_bind, hd]; rfl,
+        by show q.toNat < _; omega⟩
+  · right
+    exact ⟨_, by simp only [wide256Body, hc]; rfl⟩
+
+/-- **`reduce128` is total for ALL arguments** when the mode/sign never decides `adjust = -1`. -/
+theorem reduce128_total_nodown (rm : UInt8) (neg : Bool) (sig : U128) (exp : Int16) (trunc : Int8)
+    (hm : NoDown rm neg) : ∃ r, Gen.RoundingMode.reduce128 rm neg sig exp trunc = .ok r := by
+  rw [reduce128_eq]
+  apply ladder128_ok
+  intro s' e' t' d'
+  exact reduceTail_total_nodown _ _ _ _ _ _ hm
+
+/-- **`reduce192` is total for ALL arguments** when the mode/sign never decides `adjust = -1`. -/
+theorem reduce192_total_nodown (rm : UInt8) (neg : Bool) (sig : U192) (exp : Int16) (trunc : Int8)
+    (hm : NoDown rm neg) : ∃ r, Gen.RoundingMode.reduce192 rm neg sig exp trunc = .ok r := by
+  rw [reduce192_eq]
+  apply step192_ok
+  intro n e t
+  obtain ⟨s, es⟩ := loop_ok wide192Body (fun b => b.1.toNat) wide192Body_total (n, e, t)
+  show ∃ r, (do
+    let s ← forIn (m := Go.GoM) Lean.Loop.mk (n, e, t) wide192Body
+    ladder128 (fun s' e' t' d' => reduceTailP rm neg e' t' s' d')
+      { w0 := s.1.w0, w1 := s.1.w1 } s.2.1 s.2.2) = .ok r
+  rw [es, ok_bind]
+  apply ladder128_ok
+  intro s' e' t' d'
+  rw [reduceTailP_eq]
+  exact reduceTail_total_nodown _ _ _ _ _ _ hm
+
+/-- **`reduce256` is total for ALL arguments** when the mode/sign never decides `adjust = -1`. -/
+theorem reduce256_total_nodown (rm : UInt8) (neg : Bool) (sig : U256) (exp : Int16) (trunc : Int8)
+    (hm : NoDown rm neg) : ∃ r, Gen.RoundingMode.reduce256 rm neg sig exp trunc = .ok r := by
+  rw [reduce256_eq]
+  obtain ⟨s0, e0⟩ := loop_ok wide256Body (fun b => b.1.toNat) wide256Body_total (sig, exp, trunc)
+  rw [e0, ok_bind]
+  apply step192_ok
+  intro n e t
+  obtain ⟨s, es⟩ := loop_ok wide192Body (fun b => b.1.toNat) wide192Body_total (n, e, t)
+  show ∃ r, (do
+    let s2 ← forIn (m := Go.GoM) Lean.Loop.mk (e, t, n) wide192BodyP
+    ladder128 (fun s' e' t' d' => reduceTailP rm neg e' t' s' d')
+      { w0 := s2.2.2.w0, w1 := s2.2.2.w1 } s2.1 s2.2.1) = .ok r
+  have hP : forIn (m := Go.GoM) Lean.Loop.mk (e, t, n) wide192BodyP = .ok (s.2.1, s.2.2, s.1) := by
+    rw [wide192P_eq]
+    show Except.map _ (forIn (m := Go.GoM) Lean.Loop.mk (n, e, t) wide192Body) = _
+    rw [es]; rfl
+  rw [hP, ok_bind]
+  apply ladder128_ok
+  intro s' e' t' d'
+  rw [reduceTailP_eq]
+  exact reduceTail_total_nodown _ _ _ _ _ _ hm
+
+/-- sign-aware form -/
+theorem reduce192_total_modes_sign (rm : UInt8) (neg : Bool) (sig : U192) (exp : Int16) (trunc : Int8)
+    (hm : rm ≠ 2 ∧ ¬ (rm = 5 ∧ neg = true) ∧ ¬ (rm = 4 ∧ neg = false)) :
+    ∃ r, Gen.RoundingMode.reduce192 rm neg sig exp trunc = .ok r :=
+  reduce192_total_nodown rm neg sig exp trunc (noDown_of_modes_sign rm neg hm)
+
+/-- `ToNearestEven` (0), `ToNearestAway` (1), `AwayFromZero` (3) and every invalid mode byte ≥ 6:
+    `reduce192` terminates without panic for ALL `neg sig exp trunc`. -/
+theorem reduce192_total_modes (rm : UInt8) (neg : Bool) (sig : U192) (exp : Int16) (trunc : Int8)
+    (hm : rm ≠ 2 ∧ rm ≠ 4 ∧ rm ≠ 5) :
+    ∃ r, Gen.RoundingMode.reduce192 rm neg sig exp trunc = .ok r :=
+  reduce192_total_nodown rm neg sig exp trunc (noDown_of_modes rm neg hm)
+
+theorem reduce128_total_modes_sign (rm : UInt8) (neg : Bool) (sig : U128) (exp : Int16) (trunc : Int8)
+    (hm : rm ≠ 2 ∧ ¬ (rm = 5 ∧ neg = true) ∧ ¬ (rm = 4 ∧ neg = false)) :
+    ∃ r, Gen.RoundingMode.reduce128 rm neg sig exp trunc = .ok r :=
+  reduce128_total_nodown rm neg sig exp trunc (noDown_of_modes_sign rm neg hm)
+
+theorem reduce128_total_modes (rm : UInt8) (neg : Bool) (sig : U128) (exp : Int16) (trunc : Int8)
+    (hm : rm ≠ 2 ∧ rm ≠ 4 ∧ rm ≠ 5) :
+    ∃ r, Gen.RoundingMode.reduce128 rm neg sig exp trunc = .ok r :=
+  reduce128_total_nodown rm neg sig exp trunc (noDown_of_modes rm neg hm)
+
+theorem reduce256_total_modes_sign (rm : UInt8) (neg : Bool) (sig : U256) (exp : Int16) (trunc : Int8)
+    (hm : rm ≠ 2 ∧ ¬ (rm = 5 ∧ neg = true) ∧ ¬ (rm = 4 ∧ neg = false)) :
+    ∃ r, Gen.RoundingMode.reduce256 rm neg sig exp trunc = .ok r :=
+  reduce256_total_nodown rm neg sig exp trunc (noDown_of_modes_sign rm neg hm)
+
+theorem reduce256_total_modes (rm : UInt8) (neg : Bool) (sig : U256) (exp : Int16) (trunc : Int8)
+    (hm : rm ≠ 2 ∧ rm ≠ 4 ∧ rm ≠ 5) :
+    ∃ r, Gen.RoundingMode.reduce256 rm neg sig exp trunc = .ok r :=
+  reduce256_total_nodown rm neg sig exp trunc (noDown_of_modes rm neg hm)
+
+/-- Hoare-triple forms; deliberately NOT `@[spec]` (they would clash with `reduce*_total_triple`) -/
+theorem reduce192_total_modes_triple (rm : UInt8) (neg : Bool) (sig : U192) (exp : Int16)
+    (trunc : Int8) :
+    ⦃⌜rm ≠ 2 ∧ rm ≠ 4 ∧ rm ≠ 5⌝⦄ Gen.RoundingMode.reduce192 rm neg sig exp trunc ⦃⇓ _ => ⌜True⌝⦄ :=
+  triple_of_total (reduce192_total_modes rm neg sig exp trunc)
+
+theorem reduce128_total_modes_triple (rm : UInt8) (neg : Bool) (sig : U128) (exp : Int16)
+    (trunc : Int8) :
+    ⦃⌜rm ≠ 2 ∧ rm ≠ 4 ∧ rm ≠ 5⌝⦄ Gen.RoundingMode.reduce128 rm neg sig exp trunc ⦃⇓ _ => ⌜True⌝⦄ :=
+  triple_of_total (reduce128_total_modes rm neg sig exp trunc)
+
+theorem reduce256_total_modes_triple (rm : UInt8) (neg : Bool) (sig : U256) (exp : Int16)
+    (trunc : Int8) :
+    ⦃⌜rm ≠ 2 ∧ rm ≠ 4 ∧ rm ≠ 5⌝⦄ Gen.RoundingMode.reduce256 rm neg sig exp trunc ⦃⇓ _ => ⌜True⌝⦄ :=
+  triple_of_total (reduce256_total_modes rm neg sig exp trunc)
+
+/-- the default mode on the input on which `ToZero` loops forever (`reduce192_zero_stuck`) -/
+example : ∃ r, Gen.RoundingMode.reduce192 0 false { w0 := 0, w1 := 0, w2 := 0 } 6176 (-1) = .ok r :=
+  reduce192_total_modes _ _ _ _ _ (by decide)
 
 /-! ## FINDING: the hypothesis is necessary -/
 
